@@ -63,6 +63,27 @@ def run_property(mod, tier, seed, replay=None):
     cov["checker_cmd"] = "cd lean && lake build DilithiumVerif.Props.%s && lake env lean <#print axioms for each theorem>" % pid
     cov["axioms_used"] = sorted({a for t in (aud["axioms"].values() if aud else []) for a in t})
 
+    # 1a. thorough tier: independent kernel re-check of the compiled modules the property theorems depend on
+    if ok_thm and tier == "thorough" and not replay:
+        okc, infoc = core.leancheck(pid)
+        cov["kernel_recheck"] = dict(tool="leanchecker (Lean 4.33.0)", **infoc)
+        log("leanchecker: %s" % infoc)
+        if not okc:
+            broken_obligations.append("leanchecker rejects a compiled module needed by Props/%s: %s" % (pid, infoc.get("error", "")[:300]))
+
+    # 1b. the specification-level definitions the refinement theorems are stated with, against independent oracles
+    if ok_thm and getattr(mod, "SPEC_ORACLE", None) and not replay:
+        from . import specoracle
+        nspec, badspec = specoracle.check(set(mod.SPEC_ORACLE), tier, core.Rng(seed, pid + "/spec"))
+        cov["spec_oracle"] = dict(groups=sorted(mod.SPEC_ORACLE), comparisons=nspec, mismatches=len(badspec),
+                                  what="lean/SpecEval.lean evaluates XofSpec.SHAKE128/256, Padding.padBytes, BitSpec.simpleBitPack/bitPack, "
+                                       "EncodeSpec.hintBitPack, SampleInBall.sampleInBall, UniformStream.cands, EtaStream.etaCands, Spec.Rounding; "
+                                       "oracles: hashlib and tools/dvcheck/pyspec.py")
+        log("spec oracle: %d comparisons, %d mismatches" % (nspec, len(badspec)))
+        if badspec:
+            print("ERROR: the specification transcription disagrees with its independent oracle (%d case(s)), first: %s" % (len(badspec), badspec[0]))
+            return 2
+
     # 2. harness from /repo's working tree
     ok_h, out_h = core.harness_build()
     if not ok_h:
